@@ -38,6 +38,7 @@ class Obligation:
     cites: list = field(default_factory=list)
     tanh_as_exp: bool = True
     inst: list = field(default_factory=list)  # ground-instance generators: f(list of asserts) -> list of true facts
+    sampler: object = None  # optional: f(random.Random) -> {z3 const or 'fn:<uf name>': value / callable}; used only by the sampling falsifier
     ratfun: tuple = None  # (lhs, rhs): decide lhs == rhs as a rational-function identity with the sympy back end
     # result
     status: str = None  # discharged | refuted | unknown | ok | vacuous | control_failed | untranslatable
@@ -132,8 +133,232 @@ def discharge(ob, timeout_ms=20000, second_backend=True):
         if ob.status == "discharged":
             break
     ob.rounds = top
+    if ob.status == "unknown" and ob.expect == "valid" and ob.kind != "applicability":
+        try:
+            cand = falsify_by_sampling(ob)
+        except Exception:  # noqa: BLE001
+            cand = None
+        if cand is not None:
+            ob.status, ob.backend = "refuted", "sampling"
+            ob.solver_output = "solvers: unknown; counter-model found by evaluating the obligation at sampled points (all hypotheses hold, goal fails by > 1e-6): " + str(cand)[:1200]
+            if ob.replay and "vars" in ob.replay:
+                try:
+                    ob.model = {name: cand.get(str(e), None) if isinstance(e, z3.ExprRef) and z3.is_const(e) else None for name, e in ob.replay["vars"].items()}
+                except Exception:  # noqa: BLE001
+                    ob.model = None
     ob.ms = (time.time() - t0) * 1000
     return ob
+
+
+# ------------------------------------------------------------------------------------------------
+# Falsification by sampling: an obligation the solvers leave `unknown` (typically non-linear real arithmetic with
+# transcendental symbols) is evaluated at concrete points.  A point where every hypothesis holds and the goal fails BY A MARGIN
+# is a counter-model candidate; it is reported as `refuted` only with that concrete model attached, which the replay then runs on
+# the real code.  Sampling never proves anything and is never used for discharging.
+class _NoEval(Exception):
+    pass
+
+
+def _feval(e, env):
+    """memoised on the term DAG (shared subterms are evaluated once per point)"""
+    memo = env.setdefault("$memo", {})
+    key = e.get_id()
+    if key in memo:
+        return memo[key]
+    if len(memo) > 200000:
+        raise _NoEval("term too large")
+    v = _feval0(e, env)
+    memo[key] = v
+    return v
+
+
+def _feval0(e, env):
+    """evaluate a quantifier-free real/int/bool term at a point (floats; T2 symbols by their mathematical meaning)"""
+    import math
+    if z3.is_quantifier(e):
+        raise _NoEval("quantifier")
+    k = e.decl().kind()
+    ch = e.children()
+    if z3.is_rational_value(e):
+        return e.numerator_as_long() / e.denominator_as_long()
+    if z3.is_int_value(e):
+        return e.as_long()
+    if z3.is_true(e):
+        return True
+    if z3.is_false(e):
+        return False
+    if k == z3.Z3_OP_SELECT:
+        arr, idx = _feval(ch[0], env), _feval(ch[1], env)
+        return arr(int(idx))
+    if k == z3.Z3_OP_STORE:
+        arr, idx, val = _feval(ch[0], env), _feval(ch[1], env), _feval(ch[2], env)
+        return lambda j_, arr=arr, idx=idx, val=val: val if j_ == idx else arr(j_)
+    if k == z3.Z3_OP_CONST_ARRAY:
+        val = _feval(ch[0], env)
+        return lambda j_, val=val: val
+    if k == z3.Z3_OP_UNINTERPRETED:
+        name = e.decl().name()
+        if not ch:
+            if e.get_id() in env:
+                return env[e.get_id()]
+            raise _NoEval(f"free symbol {name}")
+        a = [_feval(c, env) for c in ch]
+        if ("fn:" + name) in env:
+            return env["fn:" + name](*a)
+        fn = {"r_exp": math.exp, "r_log": lambda v: math.log(v) if v > 0 else float("nan"), "r_tanh": math.tanh, "r_arctanh": lambda v: math.atanh(v) if -1 < v < 1 else float("nan"),
+              "r_sqrt": lambda v: math.sqrt(v) if v >= 0 else float("nan")}.get(name)
+        if fn is None or len(a) != 1:
+            raise _NoEval(f"uninterpreted {name}")
+        try:
+            return fn(a[0])
+        except OverflowError:
+            return float("inf")
+    a = [_feval(c, env) for c in ch]
+    if k == z3.Z3_OP_ADD:
+        return sum(a)
+    if k == z3.Z3_OP_SUB:
+        return a[0] - sum(a[1:])
+    if k == z3.Z3_OP_UMINUS:
+        return -a[0]
+    if k == z3.Z3_OP_MUL:
+        out = 1
+        for v in a:
+            out *= v
+        return out
+    if k == z3.Z3_OP_DIV:
+        return a[0] / a[1] if a[1] != 0 else float("nan")
+    if k == z3.Z3_OP_IDIV:
+        return a[0] // a[1] if a[1] != 0 else float("nan")
+    if k == z3.Z3_OP_MOD:
+        return a[0] % a[1] if a[1] != 0 else float("nan")
+    if k == z3.Z3_OP_POWER:
+        return a[0] ** a[1]
+    if k == z3.Z3_OP_TO_REAL:
+        return float(a[0])
+    if k == z3.Z3_OP_TO_INT:
+        return math.floor(a[0])
+    if k == z3.Z3_OP_ITE:
+        return a[1] if a[0] else a[2]
+    if k == z3.Z3_OP_AND:
+        return all(a)
+    if k == z3.Z3_OP_OR:
+        return any(a)
+    if k == z3.Z3_OP_NOT:
+        return not a[0]
+    if k == z3.Z3_OP_IMPLIES:
+        return (not a[0]) or a[1]
+    if k == z3.Z3_OP_EQ:
+        return ("eq", a[0], a[1]) if not isinstance(a[0], bool) else a[0] == a[1]
+    if k == z3.Z3_OP_DISTINCT:
+        return ("ne", a[0], a[1])
+    if k in (z3.Z3_OP_LE, z3.Z3_OP_LT, z3.Z3_OP_GE, z3.Z3_OP_GT):
+        return ({z3.Z3_OP_LE: "le", z3.Z3_OP_LT: "lt", z3.Z3_OP_GE: "ge", z3.Z3_OP_GT: "gt"}[k], a[0], a[1])
+    raise _NoEval(f"operator {e.decl().name()}")
+
+
+def _truth(v, margin, want):
+    """three-valued: True / False only when decided by more than `margin`; None = too close to call (or nan)"""
+    import math
+    if isinstance(v, bool):
+        return v
+    if isinstance(v, tuple):
+        op, x, y = v
+        if any(isinstance(t, float) and (math.isnan(t) or math.isinf(t)) for t in (x, y)):
+            return None
+        tol = margin * max(1.0, abs(x), abs(y))
+        d = x - y
+        if op == "eq":
+            return True if d == 0 else (False if abs(d) > tol else None)
+        if op == "ne":
+            return False if d == 0 else (True if abs(d) > tol else None)
+        if op in ("le", "lt"):
+            return True if d < -tol else (False if d > tol else (True if (d == 0 and op == "le") else None))
+        if op in ("ge", "gt"):
+            return True if d > tol else (False if d < -tol else (True if (d == 0 and op == "ge") else None))
+    return None
+
+
+def _beval(e, env, margin):
+    """boolean structure evaluated three-valued (memoised)"""
+    memo = env.setdefault("$bmemo", {})
+    key = (e.get_id(), margin)
+    if key not in memo:
+        memo[key] = _beval0(e, env, margin)
+    return memo[key]
+
+
+def _beval0(e, env, margin):
+    k = e.decl().kind() if z3.is_app(e) else None
+    if k == z3.Z3_OP_AND:
+        vals = [_beval(c, env, margin) for c in e.children()]
+        return False if any(v is False for v in vals) else (None if any(v is None for v in vals) else True)
+    if k == z3.Z3_OP_OR:
+        vals = [_beval(c, env, margin) for c in e.children()]
+        return True if any(v is True for v in vals) else (None if any(v is None for v in vals) else False)
+    if k == z3.Z3_OP_NOT:
+        v = _beval(e.arg(0), env, margin)
+        return None if v is None else (not v)
+    if k == z3.Z3_OP_IMPLIES:
+        a, b = _beval(e.arg(0), env, margin), _beval(e.arg(1), env, margin)
+        return True if (a is False or b is True) else (False if (a is True and b is False) else None)
+    if k == z3.Z3_OP_ITE and e.sort() == z3.BoolSort():
+        c = _beval(e.arg(0), env, margin)
+        return None if c is None else _beval(e.arg(1) if c else e.arg(2), env, margin)
+    return _truth(_feval(e, env), margin, None)
+
+
+def falsify_by_sampling(ob, n=400, seed=0):
+    """returns a dict model (name -> value) of a sampled counter-model candidate, or None"""
+    import random
+    if not isinstance(ob.goal, z3.ExprRef) or ob.expect != "valid":
+        return None
+    try:
+        asserts = list(ob.hyps)
+        consts = consts_of(asserts + [ob.goal])
+        if not consts or len(consts) > 24:
+            return None
+        if ob.sampler is None and any(c.sort() not in (z3.RealSort(), z3.IntSort(), z3.BoolSort()) for c in consts):
+            return None
+    except Exception:  # noqa: BLE001
+        return None
+    rnd = random.Random(seed)
+    pool_r = [0.0, 1.0, -1.0, 0.5, -0.5, 2.0, -2.0, 3.0, 0.25, 1.5, -1.5, 10.0, -3.0]
+    t_end = time.time() + 6.0  # hard budget per obligation
+    for it_ in range(n):
+        if time.time() > t_end:
+            return None
+        env, named = {}, {}
+        given = {}
+        if ob.sampler is not None:
+            for key_, val_ in ob.sampler(rnd).items():
+                if isinstance(key_, str):
+                    env[key_] = val_
+                else:
+                    given[key_.get_id()] = val_
+                    named[str(key_)] = val_ if not callable(val_) else [val_(q_) for q_ in range(8)]
+        for c in consts:
+            if c.get_id() in given:
+                env[c.get_id()] = given[c.get_id()]
+                continue
+            if c.sort() not in (z3.RealSort(), z3.IntSort(), z3.BoolSort()):
+                return None
+            if c.sort() == z3.IntSort():
+                v = rnd.choice([0, 1, 2, 3, 4, 5, -1]) if rnd.random() < 0.8 else rnd.randint(-3, 12)
+            elif c.sort() == z3.BoolSort():
+                v = rnd.random() < 0.5
+            else:
+                r = rnd.random()
+                v = rnd.choice(pool_r) if r < 0.35 else (rnd.gauss(0, 1.5) if r < 0.8 else rnd.gauss(0, 8))
+            env[c.get_id()] = v
+            named[str(c)] = v
+        try:
+            if not all(_beval(h, env, 1e-9) is True for h in asserts):
+                continue
+            if _beval(ob.goal, env, 1e-6) is False:
+                return named
+        except (_NoEval, ZeroDivisionError, OverflowError, ValueError, TypeError):
+            return None
+    return None
 
 
 _POOL_OBS = []
@@ -615,6 +840,7 @@ class Ctx:
         self.obligations = []
         self.assumptions = set()
         self.notes = []
+        self.default_sampler = None  # contract-supplied point generator for the sampling falsifier (see Obligation.sampler)
 
     def new_interp(self):
         used, ex, dr = self.interp.used_lib, self.interp.executed, self.interp.dropped
@@ -640,6 +866,8 @@ class Ctx:
             for n, c in cases:
                 out = self.oblige(f"{oid}[{n}]", goal, list(hyps) + [c], props, kind=kind, expect=expect, fn=fn, replay=replay, **kw)
             return out
+        if "sampler" not in kw and self.default_sampler is not None:
+            kw["sampler"] = self.default_sampler
         ob = Obligation(oid=oid, props=list(props), kind=kind, hyps=list(hyps), goal=goal, expect=expect, fn=fn, replay=replay, **kw)
         self.obligations.append(ob)
         return ob
